@@ -154,7 +154,7 @@ MONITORS = [m_log, m_kfault_log]
 
 def run(i):
     note_conf(C.CONFIGS[SCEN[i]['config']]())
-    ex = C.explore(SCEN[i], MONITORS, (), quick=ck.quick, max_states=None if ck.quick else 300000)
+    ex = C.explore(SCEN[i], MONITORS, (), quick=ck.quick, max_states=None if ck.quick else 400000, jobs=0 if ck.quick else ck.jobs)
     sm = ex.summary()
     sm['secrets'] = len(SECRETS)
     sm['secret_kinds'] = sorted(set(SECRETS.values()))
@@ -267,7 +267,7 @@ def main():
     stats, samples = [], []
     cover = collections.Counter()
     nsecrets = 0
-    for sc, sm in zip(SCEN, ck.pmap(run, range(len(SCEN)))):
+    for sc, sm in zip(SCEN, (ck.pmap(run, range(len(SCEN))) if ck.quick else map(run, range(len(SCEN))))):
         ck.add_explorer_violations(sm, sc)
         samples += sm['samples'][:1]
         stats.append({k: v for k, v in sm.items() if k not in ('violation_list', 'samples', 'cover')})
